@@ -29,7 +29,7 @@ def is_sched_obligation(name):
 
 
 def run(ctx, module, weights, tags, n_quick=250, len_quick=60, n_thorough=4000, len_thorough=200, extra_histories=None,
-        release_too=False, lean_extra=(), shape=True, lean=True, cov_key=None, release_quick_filter=None):
+        release_too=False, lean_extra=(), shape=True, lean=True, cov_key=None, release_quick_filter=None, zst=True):
     """lean=False / cov_key=...: used as a *secondary* pass by checks whose main body is elsewhere
     (C05: dealloc layouts along histories)"""
     if lean:
@@ -102,6 +102,16 @@ def run(ctx, module, weights, tags, n_quick=250, len_quick=60, n_thorough=4000, 
             r3.crashes = [(idx[hi], rc) for (hi, rc) in r3.crashes]
             results.append(("release", exe3, r3))
             configs.append("release/default+unsize+arc-swap (histories with changing size_hints excluded)")
+    zres = None
+    if zst:
+        # zero-sized payload build of the same harness: the sized-family part of every history, compared
+        # with the model's lines projected onto what a ZST can carry (events by kind, counts, blocks, statuses)
+        exez, oz = common.cargo_build_bin(ctx, "hist", features=("std", "serde", "stable_deref_trait", "unsize", "arc-swap", "zst"))
+        if exez:
+            zn, zdis, zmon, zcr = hist.run_zst_pass(ctx, hs, exez, model)
+            zres = (exez, zn, zdis, zmon, zcr)
+            configs.append("debug, zero-sized payload type (%d histories with sized constructors only; projected comparison)" % zn)
+            ctx.oblige("corr:hist-model-vs-impl-zst", not zdis and not zcr, "%d projected disagreements, %d crashes over %d histories" % (len(zdis), len(zcr), zn))
     agreed = all(not r.disagreements and not r.crashes for _, _, r in results)
     ctx.oblige("corr:hist-model-vs-impl", agreed,
                "; ".join("%s: %d disagreements, %d crashes" % (nm, len(r.disagreements), len(r.crashes)) for nm, _, r in results))
@@ -110,7 +120,14 @@ def run(ctx, module, weights, tags, n_quick=250, len_quick=60, n_thorough=4000, 
     for nm, ex, r in results:
         for (hi, k, props, msg) in r.monitor_fails:
             (mine if set(props) & set(tags) else other).append((nm, ex, hi, k, props, msg))
-    ctx.oblige("monitor:%s-on-impl-traces" % ctx.prop, not mine, "%d monitor failures" % len(mine))
+    zmine = []
+    if zres:
+        for (hi, k, props, msg) in zres[3]:
+            if set(props) & set(tags):
+                zmine.append((hi, k, props, msg))
+            else:
+                other.append(("zst", zres[0], hi, k, props, msg))
+    ctx.oblige("monitor:%s-on-impl-traces" % ctx.prop, not mine and not zmine, "%d monitor failures" % (len(mine) + len(zmine)))
     r0 = res
     cov = {}
     cov.update({
@@ -157,6 +174,16 @@ def run(ctx, module, weights, tags, n_quick=250, len_quick=60, n_thorough=4000, 
         ctx.violation("ops", "\n".join(body), True)
         save_corpus(ctx, small)
         return
+    if zmine:
+        hi, k, props, msg = zmine[0]
+        ops = hs[hi][:k + 1]
+        small = hist.zst_shrink(zres[0], model, ops, props=tags)
+        text, mf, rc, _ = hist.zst_side_by_side(zres[0], model, small)
+        body = ["failing history with a ZERO-SIZED payload type (shrunk from %d to %d ops); the property is evaluated on the implementation's own observations:" % (len(ops) - 1, len(small) - 1),
+                "", text, "", "CONFIG zst", "ops (replay with: bin/check %s --replay <this file>):" % ctx.prop]
+        body += ["OP " + o for o in small]
+        ctx.violation("ops", "\n".join(body), True)
+        return
     crashed = [(nm, ex, r) for nm, ex, r in results if r.crashes]
     if crashed:
         nm, ex, r = crashed[0]
@@ -181,6 +208,23 @@ def run(ctx, module, weights, tags, n_quick=250, len_quick=60, n_thorough=4000, 
         body += ["correspondence `corr:hist-model-vs-impl` no longer checks: model and implementation disagree (%d histories; configuration %s)." % (len(dis), nm),
                  "first disagreement, shrunk; no monitor of %s fails on the implementation's trace (monitors of other properties that fail: %s):" % (
                      ctx.prop, sorted({p for _, _, _, _, ps, _ in other for p in ps})), "", text, ""]
+        body += ["OP " + o for o in small]
+    elif zres and (zres[2] or zres[4]):
+        if zres[4]:
+            hi, rc0 = zres[4][0]
+            ops = hs[hi]
+        else:
+            hi, k, a, b = zres[2][0]
+            ops = hs[hi][:k + 1]
+        small = hist.zst_shrink(zres[0], model, ops)
+        text, mf, rc, _ = hist.zst_side_by_side(zres[0], model, small)
+        if rc != 0:
+            body = ["the harness process running the REAL library with a zero-sized payload type died (exit status %s) on this history of safe API calls:" % rc, "", text, "", "CONFIG zst"]
+            body += ["OP " + o for o in small]
+            ctx.violation("ops", "\n".join(body), True)
+            return
+        body += ["correspondence `corr:hist-model-vs-impl-zst` no longer checks: with a zero-sized payload type, model and implementation disagree (%d histories)." % len(zres[2]),
+                 "first disagreement, shrunk; no monitor of %s fails on the implementation's trace:" % ctx.prop, "", text, "", "CONFIG zst"]
         body += ["OP " + o for o in small]
     ctx.defer_nfi("\n".join(body))
 
@@ -229,9 +273,14 @@ def replay(ctx, path, tags):
     ops = [l[3:].strip() for l in open(path) if l.startswith("OP ")]
     if not ops:
         raise RuntimeError("no OP lines in replay file")
-    exe, bout = common.cargo_build_bin(ctx, "hist")
     model = common.lean_exe("drv_hist")
-    text, mf, rc = hist.side_by_side(exe, model, ops)
+    if any(l.strip() == "CONFIG zst" for l in open(path)):
+        exe, bout = common.cargo_build_bin(ctx, "hist", features=("std", "serde", "stable_deref_trait", "unsize", "arc-swap", "zst"))
+        text, mf, rc, _ = hist.zst_side_by_side(exe, model, ops)
+        text += "\nCONFIG zst"
+    else:
+        exe, bout = common.cargo_build_bin(ctx, "hist")
+        text, mf, rc = hist.side_by_side(exe, model, ops)
     print(text)
     bad = [m for m in mf if set(m[1]) & set(tags)] or (rc != 0)
     ctx.oblige("replay", not bad)
